@@ -77,7 +77,7 @@ def run_loaded(cid, ops, how):
         for o in ops:
             if o["op"] == "AddNode":
                 sq = "ACGT"[: 1 + o["n"] % 4]
-                lines.append(f"S\t{name(o['n'])}\t{'*' if how == 'star' else sq}\tLN:i:{len(sq)}" + ["\tdp:f:.5\tRC:i:0042\tSG:Z:", "\tSN:Z:chr1:1000-2000\tSO:i:0", "\tur:Z:file:///ref/x.fa\txd:i:+3\txh:f:-.25e1"][o["n"] % 3])
+                lines.append(f"S\t{name(o['n'])}\t{'*' if how == 'star' else sq}\tLN:i:{len(sq)}" + ["\tdp:f:.5\tRC:i:0042\tSG:Z:", "\tSN:Z:chr1:1000-2000\tSO:i:0\tSG:Z:Homo sapiens", "\tur:Z:file:///ref/x.fa\txd:i:+3\txh:f:-.25e1"][o["n"] % 3])
         for o in ops:
             if o["op"] == "AddLink":
                 lines.append("\t".join(["L", name(o["a"]), o["ao"], name(o["b"]), o["bo"], f"{o['ov']}M"] + list(o["tg"])))
